@@ -13,7 +13,7 @@ CLAIMED = {
  'C03': ('other', 'frame censuses over the real AST (global/singleton state writers, ambient reads, set-iteration sites, reflection) + deductive VCs for the one mutable shared table, the singleton parameter hand-over, per-call object freshness, stream rewind, descriptor statelessness; bounded history monitor',
          'every mechanism through which an earlier computation, the cwd, the hash seed or an address could reach a result is enumerated and each is proved harmless, except the iteration order of identity-hashed sets in the coupled-residue display, which stays undecided; the quantifier over histories itself is only bounded-checked.',
          'A-REFL; composition step; CPython dict order; print_system order (-d) undecided'),
- 'C04': ('proof', 'deductive VCs from the real AST (pyvc): invariance / equivariance of every geometric leaf under the 24 proper signed permutations and arbitrary translations (ring normalisation), box search on a pair at arbitrary placement (C11), hydrogen placement equivariance (C17); frame census of coordinate readers and of the PDB columns',
+ 'C04': ('other', 'deductive VCs from the real AST (pyvc): invariance / equivariance of every geometric leaf under the 24 proper signed permutations and arbitrary translations (ring normalisation), box search on a pair at arbitrary placement (C11), hydrogen placement equivariance (C17); frame census of coordinate readers and of the PDB columns',
          'squared_distance, inter-atomic vectors, group centres, angle factors, bond perception and hydrogen construction proved independent of / equivariant under the motions, for all real coordinates; coordinates proved to enter only through these leaves.',
          'A-REAL (float re-association in the last ulp: bounded pose monitor); hetero rotamers excluded as in the property'),
  'C05': ('proof', 'deductive VCs from the real AST (pyvc): cut-off stutter lemmas on the desolvation / reorganisation loops, pair-enumeration proof of set_determinants with equally labelled groups, closest-pair post of get_smallest_distance over abstract squared distances, identity of Iterative objects, early return of the coupling probe; GROUND cut-offs',
